@@ -118,7 +118,13 @@ void ThreadPool::clear() {
 }
 
 void ThreadPool::stop() {
-    m_isRunning = false;
+    {
+        // the flag is a part of the workers' wait predicate: it must not change
+        // between a worker's predicate evaluation and its going to sleep
+        std::scoped_lock locker(m_queueMutex);
+        m_isRunning = false;
+    }
+
     m_condition.notify_all();
 
     {
